@@ -105,8 +105,10 @@ class controller_nonMPI(Controller):
         # initial ordering of the steps: 0,1,...,Np-1
         slots = list(range(num_procs))
 
-        # initialize time variables of each step
-        time = [t0 + sum(self.MS[j].dt for j in range(p)) for p in slots]
+        # initialize time variables of each step (accumulated in the same way as for all later blocks)
+        time = [t0] * num_procs
+        for p in slots[1:]:
+            time[p] = time[p - 1] + self.MS[p - 1].dt
 
         # determine which steps are still active (time < Tend)
         active = [time[p] < Tend - 10 * np.finfo(float).eps for p in slots]
